@@ -539,6 +539,26 @@ def job_heads(iso):
                 vs.append(violation("head_override_reaches_named_cell", {"iso3": iso, "species": sp},
                                     "%s: option %s=%d -> stock table cells changed: %s (expected only %s)" % (iso, col, value, changed, col),
                                     {"kind": "heads", "iso3": iso}))
+        # two overrides in one option dictionary, in both insertion orders and with different values: each must reach its own cell
+        # (every ordered pair over a 6-species menu that mixes alphabetical and table order)
+        menu = ["pig", "chicken", "milk_cattle", "asses", "turkey", "meat_cattle"]
+        for a, b in itertools.permutations(menu, 2):
+            n += 1
+            o = dict(base)
+            va, vb = int(float(s0[a + "_head"])) + 1111, int(float(s0[b + "_head"])) + 2222
+            o[a + "_head"] = va
+            o[b + "_head"] = vb
+            try:
+                s1, c1 = stock_for(o)
+            except Exception as e:
+                vs.append(violation("head_override_reaches_named_cell", {"iso3": iso, "species": a + "+" + b},
+                                    "%s: options %s_head, %s_head make the herd model fail: %r" % (iso, a, b, e), {"kind": "heads", "iso3": iso}))
+                continue
+            changed = sorted(k for k in set(s0.index) | set(s1.index) if not (k in s0.index and k in s1.index and repr(s0[k]) == repr(s1[k])))
+            if changed != sorted([a + "_head", b + "_head"]) or float(s1[a + "_head"]) != va or float(s1[b + "_head"]) != vb:
+                vs.append(violation("head_override_reaches_named_cell", {"iso3": iso, "species": a + "+" + b},
+                                    "%s: options {%s_head: %d, %s_head: %d} (in this order) -> herd model reads %s_head=%r, %s_head=%r; cells changed: %s" % (
+                                        iso, a, va, b, vb, a, float(s1[a + "_head"]), b, float(s1[b + "_head"]), changed), {"kind": "heads", "iso3": iso}))
     finally:
         ap.AnimalModelBuilder.create_animal_objects = orig
     return {"n": n, "v": vs}
